@@ -312,6 +312,149 @@ def v2(run: Run, prog: Program):
                 f"along the row, otherwise retarded + advanced != degree")
 
 
+def v5(run: Run, prog: Program):
+    """Retarded / advanced closeness average the path lengths over the strict
+    past / strict future of a node: a window that contains the node itself
+    averages in the zero diagonal, so the two measures are no longer exchanged
+    by time reversal."""
+    import copy
+    from .idioms import inline_simple_helpers, fold_constants, single_defs
+    from .rules_c15 import _specialise
+    vg = prog.classes.get("VisibilityGraph")
+    if vg is None:
+        raise AnalysisError("VisibilityGraph vanished")
+
+    def slice_calls_to_slices(node):
+        """`w = slice(a, b)` ... `X[i, w]`  ->  `X[i, a:b]`"""
+        node = copy.deepcopy(node)
+        defs = single_defs(node)
+
+        def as_slice(e):
+            if isinstance(e, ast.Name) and isinstance(defs.get(e.id), ast.AST):
+                e = defs[e.id]
+            if isinstance(e, ast.Call) and ast.unparse(e.func) == "slice" and \
+                    1 <= len(e.args) <= 2 and not e.keywords:
+                a = list(e.args)
+                lo, hi = (None, a[0]) if len(a) == 1 else a
+
+                def none(x):
+                    return None if x is None or (isinstance(x, ast.Constant)
+                                                 and x.value is None) else x
+                return ast.Slice(lower=none(lo), upper=none(hi), step=None)
+            return None
+        for sub in ast.walk(node):
+            if isinstance(sub, ast.Subscript) and isinstance(sub.slice, ast.Tuple) and \
+                    len(sub.slice.elts) == 2:
+                r = as_slice(sub.slice.elts[1])
+                if r is not None:
+                    sub.slice.elts[1] = r
+        return node
+
+    def body_of(m):
+        sn = m.params[0]
+        for c in ast.walk(m.node):
+            if isinstance(c, ast.Call) and isinstance(c.func, ast.Attribute) and \
+                    isinstance(c.func.value, ast.Name) and c.func.value.id == sn and \
+                    c.func.attr.startswith("_"):
+                h = prog.lookup(vg, c.func.attr)
+                if h is None or h.kind != "method":
+                    continue
+                try:
+                    sp = _specialise(h.node, c, lambda a: isinstance(
+                        a, (ast.Constant, ast.Attribute, ast.Name)) and not (
+                        isinstance(a, ast.Name) and a.id == sn))
+                except Exception:      # noqa
+                    sp = None
+                if sp is not None:
+                    node = slice_calls_to_slices(sp[0])
+                    m2 = copy.copy(h)
+                    m2.node = node
+                    if _row_part(m2) is not None:
+                        return m2
+
+        def resolve(hn, _c=vg):
+            h = prog.lookup(_c, hn)
+            return h.node if h is not None and hn.startswith("_") else None
+        m2 = copy.copy(m)
+        m2.node = slice_calls_to_slices(
+            fold_constants(inline_simple_helpers(m.node, resolve), {}))
+        return m2
+
+    def mean_reduced(m2, sub):
+        """Is the selected window reduced by an arithmetic mean?  True / False /
+        None (not recognised)."""
+        parents = {}
+        for n in ast.walk(m2.node):
+            for ch in ast.iter_child_nodes(n):
+                parents[id(ch)] = n
+        par = parents.get(id(sub))
+        if isinstance(par, ast.Attribute) and isinstance(parents.get(id(par)), ast.Call):
+            return par.attr == "mean" if par.attr in ("mean", "sum", "max", "min") \
+                else None
+        if isinstance(par, ast.Call) and sub in par.args:
+            fn = ast.unparse(par.func)
+            if fn in ("np.mean", "numpy.mean"):
+                return True
+            if fn in ("np.sum", "numpy.sum", "sum", "np.max", "np.min"):
+                return False
+            g = None
+            if isinstance(par.func, ast.Attribute) and isinstance(par.func.value, ast.Name):
+                g = prog.lookup(vg, par.func.attr)
+            if g is not None:
+                gp = [p_ for p_ in g.params if p_ not in ("self", "cls")]
+                if len(gp) == 1:
+                    for n in ast.walk(g.node):
+                        if isinstance(n, ast.Call) and isinstance(n.func, ast.Attribute) \
+                                and n.func.attr == "mean" and \
+                                ast.unparse(n.func.value) == gp[0]:
+                            return True
+                        if isinstance(n, ast.Call) and ast.unparse(n.func) in (
+                                "np.mean", "numpy.mean") and n.args and \
+                                ast.unparse(n.args[0]) == gp[0]:
+                            return True
+        return None
+
+    for mname, side in (("retarded_closeness", "past"), ("advanced_closeness", "future")):
+        m = vg.methods.get(mname)
+        if m is None:
+            run.unknowns.append(f"V5: VisibilityGraph.{mname} not found; window of the "
+                                f"time-directed closeness not decided")
+            continue
+        m2 = body_of(m)
+        part = _row_part(m2)
+        if part is None or part[0] != "slice":
+            run.unknowns.append(f"V5: {m.where}: window of {mname} not recognised")
+            continue
+        _, lo, hi, row, sub = part
+        red = mean_reduced(m2, sub)
+        if red is None:
+            run.unknowns.append(f"V5: {m.where}: reduction of the window of {mname} "
+                                f"not recognised")
+            continue
+        norm = lambda x: x.replace(" ", "") if x else x        # noqa: E731
+        lo, hi, rown = norm(lo), norm(hi), norm(row)
+        if side == "past":
+            contains_self = hi in (f"{rown}+1", f"1+{rown}") and lo in (None, "0")
+            strict = hi == rown and lo in (None, "0")
+        else:
+            contains_self = lo == rown and hi is None
+            strict = lo in (f"{rown}+1", f"1+{rown}") and hi is None
+        if not (contains_self or strict):
+            run.unknowns.append(f"V5: {m.where}: window `[{lo}:{hi}]` of {mname} is "
+                                f"neither the strict {side} nor the {side} with the node")
+            continue
+        ok = strict or not red
+        run.oblige("V5", f"{mname}:strict-{side}", ok, sample={
+            "where": m.where, "window": f"[{row}, {lo or ''}:{hi or ''}]",
+            "mean": red})
+        if not ok:
+            run.add("V5", f"VisibilityGraph.{mname}/window-contains-node", m.where,
+                    f"{mname} averages the path lengths over `[{row}, {lo or ''}:"
+                    f"{hi or ''}]`, which contains the node itself (distance 0): the "
+                    f"mean is taken over one element too many, so {mname} is not the "
+                    f"mirror image of its time-reversed counterpart")
+
+
 def v3(run: Run, cy: CyProgram):
     """Retarded / advanced clustering kernels: triangle completeness and the
     past/future pair domains."""
@@ -418,6 +561,8 @@ def check(run: Run, prog: Program, cy: CyProgram, sites):
              "relation) and differ exactly by the missing-value conjunct and guard; "
              "all kernels store symmetrically and link iff the scan reaches j")
     run.rule("V2", "retarded and advanced degree sum complementary slices of a row")
+    run.rule("V5", "retarded / advanced closeness average path lengths over the "
+             "strict past / future of a node (the zero diagonal is not averaged in)")
     run.rule("V3", "retarded/advanced clustering kernels count complete triangles over "
              "past/future pairs; kernel boundary typing")
     run.explanation = (
@@ -425,6 +570,13 @@ def check(run: Run, prog: Program, cy: CyProgram, sites):
         "ties, float32 effects and invariances are NOT decided.")
     v1(run, cy)
     v2(run, prog)
+    v5(run, prog)
+    run.rule("V6", "memoised results of a VisibilityGraph (degrees, path lengths, "
+             "adjacency-derived arrays) are never edited in place: a later "
+             "retarded / advanced query sees the same graph")
+    from .rules_c06 import p1_restricted
+    p1_restricted(run, "V6", prog, lambda o: o.startswith("cached:VisibilityGraph."),
+                  "memoised VisibilityGraph result", floor=0)
     v3(run, cy)
     v4(run, prog)
     n = report_sites(run, "V3", sites,
